@@ -16,7 +16,7 @@
 (***************************************************************************)
 EXTENDS Common, MatcherRef, TLC
 
-CONSTANTS Hays, Needles     \* sets of byte strings
+CONSTANTS Pairs     \* set of <<haystack, needle>> pairs of byte strings
 
 FwdOps == {"find", "contains", "find_skip", "find_keep", "split_once"}
 BwdOps == {"rfind", "rcontains", "rfind_skip", "rfind_keep", "rsplit_once"}
@@ -41,7 +41,7 @@ Ref(op, h, n) ==
 VARIABLES op, h, n, i, j, off, pc, res
 vars == <<op, h, n, i, j, off, pc, res>>
 
-Init == /\ op \in Ops /\ h \in Hays /\ n \in Needles
+Init == /\ op \in Ops /\ \E p \in Pairs : h = p[1] /\ n = p[2]
         /\ i = 0 /\ j = 0 /\ off = None /\ pc = "start" /\ res = None
 
 \* entry of __bytes_find / __bytes_rfind (after the empty-needle shortcut of the wrappers)
